@@ -32,7 +32,7 @@ def judge (l : OpLine) (calls : List Call) (res : Res) (extras : List String) : 
     if op.rejects l.args then
       (if calls.isEmpty ∧ res == .err then [] else ["C07 the call must be rejected with nothing sent"])
     else
-      let serial := nat (a l.args 0)
+      let serial := n32 (a l.args 0)
       match requestImage op l.args with
       | none => []                                  -- some argument outside its domain: unconstrained
       | some img =>
